@@ -9,6 +9,7 @@ import Blue.Driver.C16
 import Blue.Driver.C11
 import Blue.Driver.C14
 import Blue.Driver.C04
+import Blue.Driver.C08
 import Blue.Driver.C01
 open Blue.Driver
 
@@ -17,6 +18,7 @@ def dispatch (toks : List String) : String :=
   | "setsum" :: rest => Blue.Driver.C14.handle rest
   | "kvs" :: rest => Blue.Driver.C01.handle rest
   | "ledger" :: rest => Blue.Driver.C04.handle rest
+  | "refs" :: rest => Blue.Driver.C08.handle rest
   | "cur" :: rest => Blue.Driver.C11.handle rest
   | "tk1" :: rest => Blue.Driver.C16.K1.handle rest
   | "tk2" :: rest => Blue.Driver.C16.K2.handle rest
